@@ -124,6 +124,11 @@ class Realizer:
       for it in items:
         for t in tags_of(it.get('tg', 0)):
           fdl.add_tag(r, slot_name(it['key']), t)
+    elif k == 'tagged':
+      from fiddle._src import tagging  # pylint: disable=g-import-not-at-top
+      it = items[0]
+      r = tagging.TaggedValue(tags=tags_of(it.get('tg', 1)) or [T0],
+                              default=fdl.NO_VALUE if it['val'] == 0 else self.val(it['val']))
     elif k == 'list':
       r = [self.val(it['val']) for it in items]
     elif k == 'tuple':
@@ -184,9 +189,10 @@ class Projector:
       def order(n):
         sl = _slot_of(n)
         return (0, sl) if isinstance(sl, int) else (1, str(n))
+      is_tv = node['k'] == 'tagged'
       for name in sorted(args, key=order):
         v = args[name]
-        node['items'].append({'key': _slot_of(name),
+        node['items'].append({'key': 1 if (is_tv and name == 'value') else _slot_of(name),
                               'val': 0 if v is None else self.val(v),
                               'tg': tag_mask(x.__argument_tags__.get(name, ()))})
     elif inst is not None:
